@@ -374,6 +374,48 @@ def _has_loop(d):
     return False
 
 
+def fold_const_switches(f):
+    """`if false { .. }`, `if cfg!(..) { .. }`: a branch on a constant (the operand itself, or a temporary assigned that
+    constant in the same block and nowhere else) has one live edge.  Replace the switch by a goto along it, so the dead
+    arm is as unreachable for the rules as it is for the program."""
+    blocks = f['blocks']
+    ndefs = {}
+    for b in blocks:
+        for st in b['st']:
+            if st['k'] == 'assign' and not st['pl']['p']:
+                ndefs[st['pl']['l']] = ndefs.get(st['pl']['l'], 0) + 1
+        t = b['term']
+        if t['k'] == 'call' and t.get('dest') and not t['dest']['p']:
+            ndefs[t['dest']['l']] = ndefs.get(t['dest']['l'], 0) + 2
+
+    def const_of(o, blk):
+        if o['k'] == 'const':
+            return o.get('int')
+        if o['k'] in ('copy', 'move') and not o['pl']['p'] and ndefs.get(o['pl']['l']) == 1:
+            for st in blk['st']:
+                if st['k'] == 'assign' and not st['pl']['p'] and st['pl']['l'] == o['pl']['l']:
+                    rv = st['rv']
+                    if rv['k'] == 'use' and rv['o']['k'] == 'const':
+                        return rv['o'].get('int')
+        return None
+    n = 0
+    for b in blocks:
+        t = b['term']
+        if t['k'] != 'switch':
+            continue
+        c = const_of(t['d'], b)
+        if c is None:
+            continue
+        try:
+            c = int(c)
+        except (TypeError, ValueError):
+            continue
+        tgt = next((tg for v, tg in t['ts'] if int(v) == c), t['o'])
+        b['term'] = {'k': 'goto', 't': tgt, 'folded': True, 'line': t.get('line')}
+        n += 1
+    return n
+
+
 def thread_bool_returns(f):
     """After a predicate helper has been spliced in, its `return true` / `return false` paths meet in the join block
     and the caller branches on the merged value: on the CFG every return then reaches both branches, and a guard
